@@ -25,7 +25,9 @@
 (assert (forall ((a (Array Int Str)) (b (Array Int Str)) (lo Int) (hi Int)) (! (or (= (bagS a lo hi) (bagS b lo hi))
    (and (<= lo (bdiffS a b lo hi)) (< (bdiffS a b lo hi) hi) (not (= (select a (bdiffS a b lo hi)) (select b (bdiffS a b lo hi))))))
    :pattern ((bagS a lo hi) (bagS b lo hi)) :qid seq_8)))
-; (L1-L3 - witness lemmas - are NOT part of the library: L1 and L2 together form a matching loop.
+; L1: an element of the range occurs at least once (without L2 this cannot loop: it creates no new element terms)
+(assert (forall ((a (Array Int Str)) (lo Int) (hi Int) (i Int)) (! (=> (and (<= lo i) (< i hi)) (>= (select (bagS a lo hi) (select a i)) 1)) :pattern ((bagS a lo hi) (select a i)) :qid seq_L1)))
+; (L2-L3 - witness lemmas - are NOT part of the library: L1 and L2 together form a matching loop.
 ;  Their only use, "binary search finds an element that occurs", is stated as lemma searchHit and
 ;  proved separately in /verif/selftest/lemmas/searchHit.smt2.)
 ; (SPLICE - "b is a with position p removed: bag(b,lo,hi-1) = bag(a,lo,hi) minus a[p]" - is not a general
